@@ -182,6 +182,27 @@ func runP3(p *an.Prog, r *an.Result) {
 				r.Triv(name, construct, ta.Pos(), "the operand is made from a value of that type in this function")
 				return
 			}
+			// a value handed back by a library container the module filled itself (sync.Pool,
+			// sync.Map, atomic.Value, context) is module data, not caller data
+			lib := true
+			for _, o := range an.Origins(ta.X, an.StepValue) {
+				c := an.CallOf(o)
+				if ex, ok := o.(*ssa.Extract); ok {
+					c = an.CallOf(ex.Tuple)
+				}
+				if c == nil {
+					lib = false
+					continue
+				}
+				cn := an.CallName(c)
+				if !(strings.HasPrefix(cn, "(*sync.") || strings.HasPrefix(cn, "(*sync/atomic.") || strings.HasPrefix(cn, "(context.") || strings.HasPrefix(cn, "(*container/")) {
+					lib = false
+				}
+			}
+			if lib {
+				r.Triv(name, construct, ta.Pos(), "the operand comes out of a library container that only the module fills")
+				return
+			}
 			for _, g := range an.GuardsAtInstr(ta) {
 				if g.True && an.IsCallTo(g.Cond, "expressions.isClosureInterfaceType") && noClosureParams {
 					r.OK(name, construct, ta.Pos(), "dead: control-dependent on isClosureInterfaceType(param type), false for every registered filter signature (rule F4)")
@@ -1367,6 +1388,11 @@ func runP10(p *an.Prog, r *an.Result) {
 				r.OK(name, construct, b.Pos(), why)
 				return
 			}
+			// divisor is len(x.f) for a struct field that is non-empty by construction
+			if ok, why := nonEmptyFieldLen(p, b.Y); ok {
+				r.OK(name, construct, b.Pos(), why)
+				return
+			}
 			// divisor converted from a value of a positive-by-construction type
 			for _, o := range an.Origins(b.Y, an.StepValue) {
 				if ok, why := positiveType(o.Type()); ok {
@@ -1410,4 +1436,90 @@ func geGuard(at ssa.Instruction, a, b ssa.Value) bool {
 		}
 	}
 	return false
+}
+
+// nonEmptyFieldLen: v is len(x.f) where every store into field f of that
+// struct type anywhere in the module is append(<literal with at least one
+// element>, ...) or such a literal itself: the field is never empty.
+func nonEmptyFieldLen(p *an.Prog, v ssa.Value) (bool, string) {
+	c := an.CallOf(v)
+	if c == nil || an.CallName(c) != "builtin.len" {
+		return false, ""
+	}
+	var st *types.Struct
+	var owner types.Type
+	fieldIdx := -1
+	for _, o := range an.Origins(c.Args[0], an.StepValue) {
+		switch x := o.(type) {
+		case *ssa.Field:
+			owner, fieldIdx = x.X.Type(), x.Field
+		case *ssa.UnOp:
+			if fa, ok := x.X.(*ssa.FieldAddr); ok {
+				owner, fieldIdx = fa.X.Type().Underlying().(*types.Pointer).Elem(), fa.Field
+			} else {
+				return false, ""
+			}
+		default:
+			return false, ""
+		}
+	}
+	if owner == nil {
+		return false, ""
+	}
+	st, _ = owner.Underlying().(*types.Struct)
+	if st == nil {
+		return false, ""
+	}
+	nonEmptyLit := func(x ssa.Value) bool {
+		sl, ok := x.(*ssa.Slice)
+		if !ok {
+			return false
+		}
+		al, ok := sl.X.(*ssa.Alloc)
+		if !ok {
+			return false
+		}
+		at, ok := al.Type().Underlying().(*types.Pointer).Elem().Underlying().(*types.Array)
+		return ok && at.Len() >= 1
+	}
+	sites := 0
+	for _, fn := range p.Funcs {
+		bad := false
+		an.EachInstr(fn, func(in ssa.Instruction) {
+			s, ok := in.(*ssa.Store)
+			if !ok {
+				return
+			}
+			fa, ok := s.Addr.(*ssa.FieldAddr)
+			if !ok || fa.Field != fieldIdx || !types.Identical(fa.X.Type().Underlying().(*types.Pointer).Elem(), owner) {
+				return
+			}
+			sites++
+			okv := false
+			for _, o := range an.Origins(s.Val, an.StepValue) {
+				if nonEmptyLit(o) {
+					okv = true
+					continue
+				}
+				if ac, isCall := o.(*ssa.Call); isCall {
+					if bi, isB := ac.Call.Value.(*ssa.Builtin); isB && bi.Name() == "append" && nonEmptyLit(ac.Call.Args[0]) {
+						okv = true
+						continue
+					}
+				}
+				okv = false
+				break
+			}
+			if !okv {
+				bad = true
+			}
+		})
+		if bad {
+			return false, ""
+		}
+	}
+	if sites == 0 {
+		return false, ""
+	}
+	return true, fmt.Sprintf("the divisor is the length of %s.%s, which every one of its %d constructions builds as append(non-empty literal, …): never zero", an.TypeName(owner), st.Field(fieldIdx).Name(), sites)
 }
